@@ -55,9 +55,18 @@ reg("static-ssse3", F(*BASE, "f-opt-default", "f-simd"), rustflags="-C target-fe
 reg("static-sse41", F(*BASE, "f-opt-default", "f-simd"), rustflags="-C target-feature=+sse4.1", flags=[15, 16, 18, 19, 21, 33])
 reg("static-avx2", F(*BASE, "f-opt-default", "f-simd"), rustflags="-C target-feature=+avx2", flags=[15, 16, 18, 19, 21, 34])
 reg("unsafe-debug", F("tlsh-default", "f-unsafe"), flags=[2, 15, 16, 18, 19, 21, 34])
-CFG_QUICK = ["default", "nosimd", "embedded", "lowmem", "decq", "decmin", "static-sse2"]
+# combinations of non-default features (flags are DERIVED from the feature closure, see derived_flags below)
+reg("mixed-a", F(*BASE, "f-simd", "f-opt-low-memory-buckets", "f-opt-low-memory-hex-str-decode-half-table", "f-opt-dist-qratios-table"))
+reg("mixed-b", F(*BASE, "f-opt-embedded-default", "f-opt-simd-body-comparison", "f-opt-simd-bucket-aggregation",
+                 "f-opt-low-memory-hex-str-decode-min-table", "f-opt-pearson-table-double"), rustflags="-C target-feature=+ssse3")
+reg("strict-decq", F(*BASE, "f-strict-parser", "f-opt-low-memory-hex-str-decode-quarter-table", "f-opt-low-memory-hex-str-encode-min-table",
+                     "f-opt-dist-qratios-table-double"))
+reg("strict-decmin", F(*BASE, "f-strict-parser", "f-opt-low-memory-hex-str-decode-min-table", "f-opt-dist-qratios-table-double"))
+reg("strict-nosimd", F(*BASE, "f-strict-parser", "f-opt-low-memory-hex-str-decode-half-table", "f-opt-pearson-table-double"))
+reg("serde-buffered-strict", F("tlsh-default", "serde-suite", "f-serde-buffered", "f-strict-parser"))
+CFG_QUICK = ["default", "nosimd", "embedded", "lowmem", "decq", "decmin", "static-sse2", "mixed-a", "unsafe-debug"]
 CFG_ALL = ["default", "nosimd", "embedded", "lowmem", "decq", "decmin", "static-sse2", "static-ssse3", "static-sse41",
-           "static-avx2", "unsafe-debug", "unsafe-release", "release"]
+           "static-avx2", "unsafe-debug", "unsafe-release", "release", "mixed-a", "mixed-b"]
 
 
 # ---- model flags derived from the CURRENT Cargo.toml feature graph (tie for C07) ----
@@ -129,3 +138,7 @@ def derived_flags(name):
     else:
         fl.append(31)
     return sorted(fl)
+
+
+for _n in ("mixed-a", "mixed-b", "strict-decq", "strict-decmin", "strict-nosimd", "serde-buffered-strict"):
+    CONFIGS[_n]["flags"] = derived_flags(_n)
